@@ -1,6 +1,7 @@
 //! Extension `undo` of the Yata executor (see ext/mod.rs for the contract) -- property C12.
 //!
-//! Configuration `cfg.undo = {"r": <replica>, "scope": ["t"|"a"|"m", ...], "origin": "U" | "", "timeout": 500}`:
+//! Configuration `cfg.undo = {"r": <replica>, "scope": ["t"|"a"|"m"|"x", ...], "origin": "U" | "", "timeout": 500}`
+//! (scope "x" = the XML fragment root, needs `cfg.xml = true` so that every replica declares the root):
 //! replica `r` gets an `UndoManager` over the listed root types.  `origin` = tracked transaction origin
 //! ("" = the manager tracks transactions WITHOUT origin, the library's default rule).  The manager's clock
 //! is controlled: it only moves by `tick` steps, so capture grouping is deterministic.
@@ -11,18 +12,30 @@
 //!   {"a":"ustop","r":r}                       UndoManager::reset() (stop capturing into the current stack item)
 //!   {"a":"undo","r":r} / {"a":"redo","r":r}   undo_blocking() / redo_blocking(); a local transaction: the event has the
 //!                                             fields of World::local (`k:"loc"`, upd, obs, nev, ...) plus `ret`
-//!   {"a":"uop","op":"ins|del|set|rem", ...}   a local step whose address is resolved against the CURRENT visible state
+//!   {"a":"uop","op":"ins|del|set|rem|fmt", ...} a local step whose address is resolved against the CURRENT visible state
 //!                                             (index clamped, "#j" = j-th nested container, inapplicable -> `unop` event);
-//!                                             executed through World::local (event `k:"loc"`, `call` = resolved step)
+//!                                             executed through World::local (event `k:"loc"`, `call` = resolved step).
+//!                                             XML: root "x"; "#e<j>" / "#t<j>" = j-th XmlElement / XmlText child (cyclic), "#j" =
+//!                                             j-th child of any kind; ins with k "E" (element, fresh unique name) or "X" (text node
+//!                                             with n fresh characters and a fresh attribute `uid`): every node is unique BY VALUE;
+//!                                             set / rem = attribute of an element; ins / del / fmt (fresh format value, key "b") on
+//!                                             an XmlText
+//!   {"a":"umulti","r":r,"o":origin,"ops":[{"op":..,"p":..,"i":..,"n":..,"k":..,"key":..}, ..]}
+//!                                             the listed `uop`-like operations inside ONE transaction of origin `o`; every
+//!                                             address is resolved against the state at that moment INSIDE the transaction
+//!                                             (roots outside the scope may be addressed); event `k:"loc"`, `call` =
+//!                                             {"a":"multi","o":..,"ops":[resolved steps | {"a":"none"}]}, one update slot
 //! Every update slot is used (an inapplicable `uop` pushes an empty update) so that slot numbers are static.
 //!
 //! Every event of the behaviour additionally carries (after_step):
 //!   uc    = {"r","scope","origin","timeout"}          the manager's configuration
 //!   us,rs = undo_stack().len(), redo_stack().len()
-//!   uv    = {"t": <canonical content string>, "a": .., "m": ..}   content of r's three root types (by VALUE, not by id)
+//!   uv    = {"t": <canonical content string>, "a": .., "m": .., "x": ..}   content of r's root types (by VALUE, not by id);
+//!           XML: X[child,..], element <name k=v,..>[child,..] (attributes sorted), text node T{k=v,..}("chunk"{fmt},..)
 //!   uclk  = current value of the controlled clock
 //!   croot = {container key: root name} for every container known so far
 //!   vv    = comparison key for repeated executions of the same schedule (content by value, stack lengths, return value)
+//!   alias = (undo / redo calls only) classes of element ids that carried the same value, in order of creation
 use crate::obs;
 use crate::yata::{panic_msg, World};
 use serde_json::{json, Map as JMap, Value};
@@ -31,7 +44,9 @@ use std::panic::{catch_unwind, AssertUnwindSafe};
 use std::sync::atomic::{AtomicU64, Ordering};
 use std::sync::Arc;
 use yrs::undo::{Options as UndoOptions, UndoManager};
-use yrs::{Array, GetString, Map, Out, ReadTxn, Transact};
+use yrs::types::text::YChange;
+use yrs::types::xml::{XmlFragment, XmlOut};
+use yrs::{Array, GetString, Map, Out, ReadTxn, Text, TextRef, Transact, Xml, XmlFragmentRef};
 
 pub struct UndoExt {
     pub r: u64,
@@ -92,6 +107,10 @@ pub fn init(w: &mut World) {
                 let m = doc.get_or_insert_map("m");
                 mgr.expand_scope(&doc, &m);
             }
+            "x" => {
+                let x = doc.get_or_insert_xml_fragment("x");
+                mgr.expand_scope(&doc, &x);
+            }
             _ => {}
         }
     }
@@ -121,8 +140,60 @@ fn render<T: ReadTxn>(txn: &T, o: &Out, depth: usize) -> String {
             let items: Vec<String> = es.into_iter().map(|(k, v)| format!("{}:{}", k, v)).collect();
             format!("{{{}}}", items.join(","))
         }
+        Out::YXmlFragment(f) => format!("X[{}]", render_children(txn, f, depth)),
+        Out::YXmlElement(e) => {
+            let f: &XmlFragmentRef = e.as_ref();
+            format!("<{}{}>[{}]", e.tag(), render_attrs(txn, e.attributes(txn).map(|(k, v)| (k.to_string(), v)).collect(), depth, " "), render_children(txn, f, depth))
+        }
+        Out::YXmlText(t) => {
+            let tr: &TextRef = t.as_ref();
+            // formatted chunks; neighbouring chunks with equal formatting are one chunk (canonical form)
+            let mut chunks: Vec<(String, String)> = Vec::new();
+            for d in tr.diff(txn, YChange::identity) {
+                let fmt = match &d.attributes {
+                    Some(a) => {
+                        let mut kv: Vec<(String, String)> = a.iter().map(|(k, v)| (k.to_string(), obs::any_tag(v))).collect();
+                        kv.sort();
+                        kv.into_iter().map(|(k, v)| format!("{}={}", k, v)).collect::<Vec<_>>().join(",")
+                    }
+                    None => String::new(),
+                };
+                let body = match &d.insert {
+                    Out::Any(yrs::Any::String(s)) => s.to_string(),
+                    other => format!("\u{1}{}\u{1}", render(txn, other, depth + 1)),
+                };
+                match chunks.last_mut() {
+                    Some(l) if l.1 == fmt => l.0.push_str(&body),
+                    _ => chunks.push((body, fmt)),
+                }
+            }
+            let cs: Vec<String> = chunks.into_iter().map(|(b, f)| if f.is_empty() { format!("\"{}\"", b) } else { format!("\"{}\"{{{}}}", b, f) }).collect();
+            format!("T{}({})", render_attrs(txn, t.attributes(txn).map(|(k, v)| (k.to_string(), v)).collect(), depth, ""), cs.join(","))
+        }
         _ => "?".into(),
     }
+}
+
+fn xml_out(x: XmlOut) -> Out {
+    match x {
+        XmlOut::Element(e) => Out::YXmlElement(e),
+        XmlOut::Fragment(f) => Out::YXmlFragment(f),
+        XmlOut::Text(t) => Out::YXmlText(t),
+    }
+}
+
+fn render_children<T: ReadTxn>(txn: &T, f: &XmlFragmentRef, depth: usize) -> String {
+    f.children(txn).map(|c| render(txn, &xml_out(c), depth + 1)).collect::<Vec<_>>().join(",")
+}
+
+fn render_attrs<T: ReadTxn>(txn: &T, attrs: Vec<(String, Out)>, depth: usize, lead: &str) -> String {
+    let mut kv: Vec<(String, String)> = attrs.iter().map(|(k, v)| (k.clone(), render(txn, v, depth + 1))).collect();
+    kv.sort();
+    if kv.is_empty() {
+        return String::new();
+    }
+    let body = kv.into_iter().map(|(k, v)| format!("{}={}", k, v)).collect::<Vec<_>>().join(",");
+    if lead.is_empty() { format!("{{{}}}", body) } else { format!("{}{}", lead, body) }
 }
 
 fn views(w: &World, ri: usize) -> Value {
@@ -130,7 +201,9 @@ fn views(w: &World, ri: usize) -> Value {
     let t = txn.get_text("t").map(|t| render(&txn, &Out::YText(t), 0)).unwrap_or_default();
     let a = txn.get_array("a").map(|a| render(&txn, &Out::YArray(a), 0)).unwrap_or_default();
     let m = txn.get_map("m").map(|m| render(&txn, &Out::YMap(m), 0)).unwrap_or_default();
-    json!({"t": t, "a": a, "m": m})
+    // the XML root exists only in behaviours that asked for it (cfg.xml); rendered as the empty fragment otherwise
+    let x = txn.get_xml_fragment("x").map(|x| render(&txn, &Out::YXmlFragment(x), 0)).unwrap_or_else(|| "X[]".to_string());
+    json!({"t": t, "a": a, "m": m, "x": x})
 }
 
 fn root_of(w: &World, cont: &str) -> String {
@@ -190,7 +263,13 @@ pub fn after_step(w: &mut World, _st: &Value, ev: &mut Value) {
             e.push(*id);
         }
     }
-    let groups: Vec<Vec<(u64, u32)>> = u.same.values().filter(|v| v.len() > 1).cloned().collect();
+    let mut groups: Vec<Vec<(u64, u32)>> = u.same.values().filter(|v| v.len() > 1).cloned().collect();
+    groups.sort();
+    // undo / redo calls carry the classes (an element and its re-created copies, in order of creation): diagnostic context
+    // for known-finding patterns
+    if matches!(ev["call"]["a"].as_str(), Some("undo") | Some("redo")) {
+        ev["alias"] = json!(groups.iter().map(|g| g.iter().map(|x| json!([x.0, x.1])).collect::<Vec<_>>()).collect::<Vec<_>>());
+    }
     if !groups.is_empty() {
         let mut classes = HashMap::new();
         for (i, g) in groups.iter().enumerate() {
@@ -307,24 +386,61 @@ enum Tgt {
     Text(u32),
     Array(u32),
     Map(Vec<String>),
+    /// XML fragment (root): number of children
+    XFrag(u32),
+    /// XML element: number of children, attribute names
+    XElem(u32, Vec<String>),
+    /// XML text node: number of characters
+    XText(u32),
 }
 
-/// resolves an abstract address against the current visible state of replica `ri`
-fn resolve(w: &World, ri: usize, path: &[String]) -> Option<(Vec<String>, Tgt)> {
-    let txn = w.reps[ri].doc.transact();
+fn xml_children<T: ReadTxn>(txn: &T, cur: &Out) -> Option<Vec<Out>> {
+    match cur {
+        Out::YXmlFragment(f) => Some(f.children(txn).map(xml_out).collect()),
+        Out::YXmlElement(e) => {
+            let f: &XmlFragmentRef = e.as_ref();
+            Some(f.children(txn).map(xml_out).collect())
+        }
+        _ => None,
+    }
+}
+
+/// resolves an abstract address against the current visible state (as seen by `txn`)
+fn resolve<T: ReadTxn>(txn: &T, path: &[String]) -> Option<(Vec<String>, Tgt)> {
     let mut cur: Out = match path.first()?.as_str() {
         "t" => Out::YText(txn.get_text("t")?),
         "a" => Out::YArray(txn.get_array("a")?),
         "m" => Out::YMap(txn.get_map("m")?),
+        "x" => Out::YXmlFragment(txn.get_xml_fragment("x")?),
         _ => return None,
     };
     let mut real = vec![path[0].clone()];
     for seg in &path[1..] {
-        if let Some(j) = seg.strip_prefix('#') {
+        if let Some(kids) = xml_children(txn, &cur) {
+            // XML: "#e<j>" / "#t<j>" = j-th element / text child, "#<j>" = j-th child (counted cyclically among those present)
+            let j = seg.strip_prefix('#')?;
+            let (want, j) = match j.chars().next()? {
+                'e' => ('e', &j[1..]),
+                't' => ('t', &j[1..]),
+                _ => ('*', j),
+            };
+            let j: usize = j.parse().ok()?;
+            let cs: Vec<(usize, Out)> = kids.into_iter().enumerate().filter(|(_, v)| match (want, v) {
+                ('e', Out::YXmlElement(_)) | ('t', Out::YXmlText(_)) => true,
+                ('*', _) => true,
+                _ => false,
+            }).collect();
+            if cs.is_empty() {
+                return None;
+            }
+            let (ix, v) = cs[j % cs.len()].clone();
+            real.push(format!("#{}", ix));
+            cur = v;
+        } else if let Some(j) = seg.strip_prefix('#') {
             let j: usize = j.parse().ok()?;
             let Out::YArray(a) = &cur else { return None };
             // "#j": the j-th nested container (counted cyclically among the containers present)
-            let cs: Vec<(usize, Out)> = a.iter(&txn).enumerate().filter(|(_, v)| matches!(v, Out::YArray(_) | Out::YMap(_) | Out::YText(_))).collect();
+            let cs: Vec<(usize, Out)> = a.iter(txn).enumerate().filter(|(_, v)| matches!(v, Out::YArray(_) | Out::YMap(_) | Out::YText(_))).collect();
             if cs.is_empty() {
                 return None;
             }
@@ -333,7 +449,7 @@ fn resolve(w: &World, ri: usize, path: &[String]) -> Option<(Vec<String>, Tgt)> 
             cur = v;
         } else {
             let Out::YMap(m) = &cur else { return None };
-            let v = m.get(&txn, seg)?;
+            let v = m.get(txn, seg)?;
             if !matches!(v, Out::YArray(_) | Out::YMap(_) | Out::YText(_)) {
                 return None;
             }
@@ -342,21 +458,33 @@ fn resolve(w: &World, ri: usize, path: &[String]) -> Option<(Vec<String>, Tgt)> 
         }
     }
     let t = match &cur {
-        Out::YText(t) => Tgt::Text(World::text_units(&txn, t)),
-        Out::YArray(a) => Tgt::Array(a.len(&txn)),
+        Out::YText(t) => Tgt::Text(World::text_units(txn, t)),
+        Out::YArray(a) => Tgt::Array(a.len(txn)),
         Out::YMap(m) => {
-            let mut ks: Vec<String> = m.keys(&txn).map(|k| k.to_string()).collect();
+            let mut ks: Vec<String> = m.keys(txn).map(|k| k.to_string()).collect();
             ks.sort();
             Tgt::Map(ks)
+        }
+        Out::YXmlFragment(f) => Tgt::XFrag(f.len(txn)),
+        Out::YXmlElement(e) => {
+            let f: &XmlFragmentRef = e.as_ref();
+            let mut ks: Vec<String> = e.attributes(txn).map(|(k, _)| k.to_string()).collect();
+            ks.sort();
+            Tgt::XElem(f.len(txn), ks)
+        }
+        Out::YXmlText(t) => {
+            let tr: &TextRef = t.as_ref();
+            Tgt::XText(tr.get_string(txn).chars().count() as u32)
         }
         _ => return None,
     };
     Some((real, t))
 }
 
-fn uop(w: &mut World, st: &Value) -> Value {
+/// an abstract step `uop` -> the executable step of World::local / World::apply_op (address resolved against the state seen
+/// by `txn`, indices clamped); None = not applicable.  `fv` = the fresh format value of a `fmt` step.
+fn resolve_step<T: ReadTxn>(txn: &T, st: &Value, fv: &str) -> Option<Value> {
     let r = st["r"].as_u64().unwrap_or(1);
-    let ri = w.rep(r);
     let op = st["op"].as_str().unwrap_or("").to_string();
     let path: Vec<String> = st["p"].as_array().map(|v| v.iter().filter_map(|x| x.as_str().map(|s| s.to_string())).collect()).unwrap_or_default();
     let i = st["i"].as_u64().unwrap_or(0) as u32;
@@ -364,7 +492,7 @@ fn uop(w: &mut World, st: &Value) -> Value {
     let key = st["key"].as_str().unwrap_or("").to_string();
     let k = st["k"].as_str().unwrap_or("u").to_string();
     let o = st["o"].as_str().unwrap_or("").to_string();
-    let resolved: Option<Value> = match resolve(w, ri, &path) {
+    match resolve(txn, &path) {
         None => None,
         Some((real, tgt)) => match (tgt, op.as_str()) {
             (Tgt::Text(len), "ins") => Some(json!({"a": "ins", "r": r, "p": real, "i": i.min(len), "n": n, "k": "u", "o": o})),
@@ -375,8 +503,39 @@ fn uop(w: &mut World, st: &Value) -> Value {
             }
             (Tgt::Map(_), "set") => Some(json!({"a": "set", "r": r, "p": real, "key": key, "k": if real.len() == 1 { k.as_str() } else { "u" }, "o": o})),
             (Tgt::Map(ks), "rem") if ks.contains(&key) => Some(json!({"a": "rem", "r": r, "p": real, "key": key, "o": o})),
+            // XML: children of the fragment / of an element
+            (Tgt::XFrag(len), "ins") | (Tgt::XElem(len, _), "ins") => {
+                Some(json!({"a": "ins", "r": r, "p": real, "i": i.min(len), "n": if k == "X" { n } else { 1 }, "k": if k == "X" { "X" } else { "E" }, "uq": true, "o": o}))
+            }
+            (Tgt::XFrag(len), "del") | (Tgt::XElem(len, _), "del") if len > 0 => {
+                let i2 = i.min(len - 1);
+                Some(json!({"a": "del", "r": r, "p": real, "i": i2, "n": n.min(len - i2), "o": o}))
+            }
+            // attributes of an element
+            (Tgt::XElem(_, _), "set") => Some(json!({"a": "set", "r": r, "p": real, "key": key, "k": "u", "o": o})),
+            (Tgt::XElem(_, ks), "rem") if ks.contains(&key) => Some(json!({"a": "rem", "r": r, "p": real, "key": key, "o": o})),
+            // characters / formatting of a text node (every format value is fresh: a format step is always visible)
+            (Tgt::XText(len), "ins") => Some(json!({"a": "ins", "r": r, "p": real, "i": i.min(len), "n": n, "k": "u", "o": o})),
+            (Tgt::XText(len), "del") if len > 0 => {
+                let i2 = i.min(len - 1);
+                Some(json!({"a": "del", "r": r, "p": real, "i": i2, "n": n.min(len - i2), "o": o}))
+            }
+            (Tgt::XText(len), "fmt") if len > 0 => {
+                let i2 = i.min(len - 1);
+                Some(json!({"a": "fmt", "r": r, "p": real, "i": i2, "n": n.min(len - i2), "key": if key.is_empty() { "b" } else { key.as_str() }, "v": fv, "o": o}))
+            }
             _ => None,
         },
+    }
+}
+
+fn uop(w: &mut World, st: &Value) -> Value {
+    let r = st["r"].as_u64().unwrap_or(1);
+    let ri = w.rep(r);
+    let fv = format!("f{}", w.next_val);
+    let resolved: Option<Value> = {
+        let txn = w.reps[ri].doc.transact();
+        resolve_step(&txn, st, &fv)
     };
     match resolved {
         Some(s) => {
@@ -391,6 +550,79 @@ fn uop(w: &mut World, st: &Value) -> Value {
             json!({"k": "unop", "r": r, "call": st})
         }
     }
+}
+
+/// `umulti`: several `uop`-like operations inside ONE transaction of origin `o`; every address is resolved against the
+/// state at that moment inside the transaction (an inapplicable operation is skipped: `{"a":"none"}`).  One update slot.
+fn umulti(w: &mut World, st: &Value) -> Value {
+    let r = st["r"].as_u64().unwrap_or(1);
+    let ri = w.rep(r);
+    let o = st["o"].as_str().unwrap_or("").to_string();
+    let asked: Vec<Value> = st["ops"].as_array().cloned().unwrap_or_default();
+    // fresh content per operation, prepared before the document is borrowed
+    let mut prep: Vec<(String, Vec<yrs::Any>, yrs::Any, String)> = Vec::new();
+    for op in &asked {
+        let n = op["n"].as_u64().unwrap_or(1).max(1) as usize;
+        let fv = format!("f{}", w.next_val);
+        let chars = w.fresh_chars(n);
+        let vals: Vec<yrs::Any> = (0..n).map(|_| w.fresh_val()).collect();
+        let inner = w.fresh_val();
+        prep.push((chars, vals, inner, fv));
+    }
+    let doc = w.reps[ri].doc.clone();
+    let mut resolved: Vec<Value> = Vec::new();
+    let res = catch_unwind(AssertUnwindSafe(|| -> Result<Vec<u8>, String> {
+        let mut txn = if o.is_empty() { doc.transact_mut() } else { doc.transact_mut_with(o.as_str()) };
+        for (op, p) in asked.iter().zip(prep.iter()) {
+            let mut op = op.clone();
+            op["r"] = json!(r);
+            op["o"] = json!(o);
+            match resolve_step(&txn, &op, &p.3) {
+                Some(s) => {
+                    w.apply_op(&mut txn, &s, &p.0, &p.1, &p.2, &mut (0u32, 0u32))?;
+                    resolved.push(s);
+                }
+                None => resolved.push(json!({"a": "none"})),
+            }
+        }
+        // what the transaction created, encoded BEFORE commit: an element inserted and deleted inside one transaction of a
+        // collecting replica only ever travels as a collected range, its structure is known from here alone
+        use yrs::ReadTxn as _;
+        Ok(txn.encode_update_v1())
+    }));
+    let mut pre_units: HashMap<(u64, u32), Value> = HashMap::new();
+    let outcome = match res {
+        Ok(Ok(pre)) => {
+            if let Ok(wu) = crate::codec::decode_update_v1(&pre) {
+                let (us, _) = w.absorb(&wu);
+                for u in us {
+                    pre_units.insert(idof(&u["id"]), u);
+                }
+            }
+            "ok".to_string()
+        }
+        Ok(Err(e)) => format!("skip: {}", e),
+        Err(p) => format!("panic: {}", panic_msg(&p)),
+    };
+    let (v1, v2) = w.drain(ri);
+    let (mut upd, problems) = w.emitted(&v1, &v2);
+    if let Some(arr) = upd["ins"].as_array_mut() {
+        for u in arr.iter_mut() {
+            if u["kind"] == "gc" {
+                if let Some(p) = pre_units.get(&idof(&u["id"])) {
+                    *u = p.clone();
+                }
+            }
+        }
+    }
+    let m1 = v1.first().cloned().unwrap_or_else(|| vec![0, 0]);
+    let m2 = v2.first().cloned().unwrap_or_else(empty_v2);
+    w.log.push((r, m1, m2));
+    json!({
+        "k": "loc", "r": r, "call": {"a": "multi", "r": r, "o": o, "ops": resolved}, "asked": st, "cont": "", "outcome": outcome,
+        "upd": upd, "nev": [v1.len(), v2.len()], "wire": problems.join("; "),
+        "obs": w.observe(ri), "hasfol": w.followers, "fol": w.fol_obs(ri),
+    })
 }
 
 pub fn step(w: &mut World, st: &Value) -> Option<Value> {
@@ -414,6 +646,7 @@ pub fn step(w: &mut World, st: &Value) -> Option<Value> {
         "undo" => Some(pop(w, st, true)),
         "redo" => Some(pop(w, st, false)),
         "uop" => Some(uop(w, st)),
+        "umulti" => Some(umulti(w, st)),
         _ => None,
     }
 }
